@@ -8,7 +8,8 @@ PROP = dict(
     units=["acctstatus"],
     explanation="Of the three mechanisms of the property only 'status composition' (AccountStatus::transition) is within the "
                 "verifier's subset; BundleState::extend / extend_state / take_n_reverts / prepend_state are HashMap + iterator "
-                "plumbing and are NOT verified, so the property is not claimed as proved. What IS proved (Verus, complete over the "
+                "plumbing and are NOT verified (a Kani harness on the real bundle_state.rs exists in kani/kstates/src/c18.rs but does not terminate "
+                "in 15 min: not registered), so the property is not claimed as proved. What IS proved (Verus, complete over the "
                 "finite domain, verbatim code): " + _m.STATUS_TEXT + " STATUS-LEVEL C18 THEOREM (lemma_c18_status_composition, an "
                 "induction over the step CONTRACTS, not over the code): let the first bundle leave an account in a modified "
                 "status a; let the run that produced the second bundle load the account with the status l0 a database holding the "
@@ -29,6 +30,13 @@ PROP = dict(
     technique="Verus contracts on the verbatim status algebra + spec-level simulation lemma over the step contracts",
     trusted=_m.COMMON_TRUST + ["Rust semantics of #[derive(PartialEq)] on the field-less enum AccountStatus (two axioms in units/prelude/acctstatus_lemmas.rs)"],
     assumptions=["BundleState::extend / extend_state (storage migration into wiped reverts), take_n_reverts, take_all_reverts, prepend_state are NOT verified",
+                 "NOT DECIDABLE here (seeded change C18-1: extend() skipping the drain of `this` account's storage into the wiped revert of `other` when the "
+                 "account was destroyed in both halves): bundle_state.rs + transition_state.rs DO compile under Kani when included by #[path] in "
+                 "kani/kstates (no ICE), and kani/kstates/src/c18.rs holds the harness `c18::extend_destroyed_in_both_halves` (one concrete address, one "
+                 "concrete slot, oracle from the property text), but it is NOT registered: any std HashMap that holds a key is unaffordable in CBMC on "
+                 "this machine -- with every value concrete the symbolic execution of a 3-insert harness on the same maps was still inside the first "
+                 "map operation of the function under test after 15 min (hashbrown's SIMD group match is not constant-folded, so each probe is "
+                 "explored 6 x 6 x 32-byte memcmp deep and every reserve() walks the rehash code); measurements in mutations/C16/README.md",
                  "flag consistency: an account in status Changed has a nonce or code",
                  "the status-level theorem is an induction over the contracts of on_* / transition, which are discharged on the code; it says nothing about infos and storage"],
     rule="one evaluation per Verus obligation (each a distinct extracted function or lemma)",
